@@ -249,6 +249,18 @@ func c07dbRound(t *testing.T, run *vlib.Run, round int) {
 						outcomes["doc-put-"+verifErrClass(err)]++
 					}
 					amu.Unlock()
+				case kind == 9 && round%3 != 0: // resync of one document with regenerated sequence (takes a new number in every attempt)
+					id := vlib.Pick(wr, docs)
+					err := collection.ResyncDocument(ctx, id, nil, true)
+					amu.Lock()
+					if err == nil {
+						outcomes["resync-regenerate-ok"]++
+					} else if err == base.ErrUpdateCancel {
+						outcomes["resync-regenerate-cancelled"]++
+					} else {
+						outcomes["resync-regenerate-"+verifErrClass(err)]++
+					}
+					amu.Unlock()
 				case kind == 6: // delete
 					id := vlib.Pick(wr, docs)
 					cur, gerr := collection.GetDocument(ctx, id, DocUnmarshalSync)
@@ -460,6 +472,7 @@ func c07dbRound(t *testing.T, run *vlib.Run, round int) {
 				run.Violation("feed-progress", "C07|db|change-feed-waits-for-number-that-never-arrives", fmt.Sprintf("change cache still expects sequence %d (counter %d) after quiescence; that number was never stored or published", next, counter), wit)
 			}
 		} else {
+			run.Note("round %d: change cache stuck at %d (counter %d): carried by %v, listed unused by %v, published %d, outcomes %v", round, next, counter, carried[next], listed[next], published[next], outcomes)
 			run.Inconclusive("change cache did not reach the counter within the watchdog although the ledger accounts for the number")
 			run.Note("round %d: cache stuck at %d (counter %d): carried=%v listed=%v published=%d allowedLeak=%q", round, next, counter, carried[next], listed[next], published[next], allowedLeak[next])
 		}
